@@ -1,3 +1,4 @@
 /- aggregator: property theorems of C05 plus the source-tie theorems regenerated from the C++ -/
 import SmoothProps.C05
 import SmoothProps.SrcTie
+import SmoothProps.SrcTieImplC05
